@@ -374,6 +374,9 @@ package dbft
 //@   ensures  @hist unchanged(self.Validators) && self.BlockIndex == old(self.BlockIndex) && self.ViewNumber >= old(self.ViewNumber) && self.MyIndex == old(self.MyIndex)
 //@   ensures  [C15] @sameBase self.lastBlockTimestamp == old(self.lastBlockTimestamp)
 //@   ensures  @arms gTimerArms >= old(gTimerArms) && gBroadcasts >= old(gBroadcasts) && gInbound >= old(gInbound)
+// the 'recovering' mode lives in the DBFT value, not in the per-height context: Reset does not clear it, so it must never
+// outlive the handling of the recovery message that set it (else it shapes the timeouts of later heights)
+//@   ensures  [C05] @recoveryEnds implies(!old(self.recovering), !self.recovering)
 //@   ensures  [C05] @decidedStays implies(old(self.blockProcessed), self.blockProcessed)
 //@   ensures  [C05,C07,C10] @handedOver handedOver()
 //@   ensures  [C11] @seenMono seenMono()
@@ -834,6 +837,7 @@ package dbft
 //@        gTimerD == ite(self.lastBlockIndex + 1 == self.BlockIndex,
 //@              max(0, timeoutBase(view) - (gClock - self.lastBlockTime) - self.rttEstimates.avg / 2), timeoutBase(view)))
 //@   ensures @arms gTimerArms >= old(gTimerArms) && gBroadcasts >= old(gBroadcasts) && gInbound >= old(gInbound)
+//@   ensures [C05] @recoveryEnds implies(!old(self.recovering), !self.recovering)
 //@   ensures [C05] @cachePurged implies(view == 0, cachePurged())
 //@   ensures [C05] @cacheKeptPurged implies(old(cachePurged()), cachePurged())
 // C05: payloads received early for the height being entered are taken into account (each goes through OnReceive)
@@ -841,6 +845,7 @@ package dbft
 //@   ensures [C03] @freshStart implies(old(forall(h, !has(self.cache.mail, h))), forall(i, 0, NN(), self.PreparationPayloads[i] == nil && self.CommitPayloads[i] == nil && self.PreCommitPayloads[i] == nil) || view > 0)
 //@   ensures [C05] @freshStartView implies(old(forall(h, !has(self.cache.mail, h))) && view == 0, self.ViewNumber == 0 && !self.blockProcessed)
 //@   loop 1: use INV
+//@   loop 1: invariant [C05] @recoveryEnds implies(!old(self.recovering), !self.recovering)
 //@   loop 1: invariant self.ViewNumber >= view && implies(view > 0, sameHeight()) && heapMono() && inboxOK(msgs) && gTimerArms >= old(gTimerArms) && gBroadcasts >= old(gBroadcasts)
 //@   loop 1: invariant [C15] @sameBase self.lastBlockTimestamp == ts
 //@   loop 1: invariant [C05,C07,C10] @handedOver implies(view > 0, handedOver())
@@ -848,6 +853,7 @@ package dbft
 //@   loop 1: invariant [C05] @replayed gInbound >= old(gInbound) && forall(q, implies(visited(q), gInbound > old(gInbound))) && self.BlockIndex == before(self.BlockIndex)
 //@   loop 1: invariant [C05] @cachePurged implies(view == 0, cachePurged()) && implies(old(cachePurged()), cachePurged())
 //@   loop 2: use INV
+//@   loop 2: invariant [C05] @recoveryEnds implies(!old(self.recovering), !self.recovering)
 //@   loop 2: invariant self.ViewNumber >= view && implies(view > 0, sameHeight()) && heapMono() && inboxOK(msgs) && gTimerArms >= old(gTimerArms) && gBroadcasts >= old(gBroadcasts)
 //@   loop 2: invariant [C15] @sameBase self.lastBlockTimestamp == ts
 //@   loop 2: invariant [C05,C07,C10] @handedOver implies(view > 0, handedOver())
@@ -856,6 +862,7 @@ package dbft
 //@   loop 2: invariant [C05] @replayedBefore forall(h, implies(h == self.BlockIndex && old(has(self.cache.mail, h)) && old(nonEmptyInbox(self.cache.mail[h])), gInbound > old(gInbound)))
 //@   loop 2: invariant [C05] @cachePurged implies(view == 0, cachePurged()) && implies(old(cachePurged()), cachePurged())
 //@   loop 3: use INV
+//@   loop 3: invariant [C05] @recoveryEnds implies(!old(self.recovering), !self.recovering)
 //@   loop 3: invariant self.ViewNumber >= view && implies(view > 0, sameHeight()) && heapMono() && inboxOK(msgs) && gTimerArms >= old(gTimerArms) && gBroadcasts >= old(gBroadcasts)
 //@   loop 3: invariant [C15] @sameBase self.lastBlockTimestamp == ts
 //@   loop 3: invariant [C05,C07,C10] @handedOver implies(view > 0, handedOver())
@@ -864,6 +871,7 @@ package dbft
 //@   loop 3: invariant [C05] @replayedBefore forall(h, implies(h == self.BlockIndex && old(has(self.cache.mail, h)) && old(nonEmptyInbox(self.cache.mail[h])), gInbound > old(gInbound)))
 //@   loop 3: invariant [C05] @cachePurged implies(view == 0, cachePurged()) && implies(old(cachePurged()), cachePurged())
 //@   loop 4: use INV
+//@   loop 4: invariant [C05] @recoveryEnds implies(!old(self.recovering), !self.recovering)
 //@   loop 4: invariant self.ViewNumber >= view && implies(view > 0, sameHeight()) && heapMono() && inboxOK(msgs) && gTimerArms >= old(gTimerArms) && gBroadcasts >= old(gBroadcasts)
 //@   loop 4: invariant [C15] @sameBase self.lastBlockTimestamp == ts
 //@   loop 4: invariant [C05,C07,C10] @handedOver implies(view > 0, handedOver())
@@ -992,6 +1000,7 @@ package dbft
 //@   use U
 //@   use UNDECIDED
 //@   requires admitted(msg) && msg.Type() == RecoveryMessageType
+//@   ensures [C05] @recoveryOver !self.recovering
 //@   loop 1: use LOOPU
 //@   loop 1: invariant 0 <= validChViews && validChViews <= idx
 //@   loop 2: use LOOPU
